@@ -176,17 +176,14 @@ theorem str_check_iff (env : Env) (ty : GoTy) (nl : Bool) (mn mx : Int) (pat t :
   | _ => simp [strBase] at hb
 
 theorem arr_check_eq (env : Env) (t : GoTy) (mn mx : Int) (xs : List Json) (g : Nat) (v : GoVal)
-    (hn : ∀ n, t ≠ .named n) (hb : t ≠ .int .u8)
+    (he : elemOK env t = true)
     (hd : decode .json env g (.slice t) (.arr xs) = .ok v) :
     checkArray 1 v mn mx = Spec.itemsCountOK mn mx xs.length := by
   cases g with
   | zero => simp [decode] at hd
   | succ g =>
-    have hdec : decode .json env (g + 1) (.slice t) (.arr xs) = (decodeElems .json env g t xs).map .slice := by
-      cases t <;> first
-        | (exfalso; exact hn _ rfl)
-        | (rename_i k; cases k <;> first | (exfalso; exact hb rfl) | simp [decode])
-        | simp [decode]
+    have hdec : decode .json env (g + 1) (.slice t) (.arr xs) = (decodeElems .json env g t xs).map .slice :=
+      decode_slice_eq env t xs g he
     rw [hdec] at hd
     cases hr' : decodeElems .json env g t xs with
     | error e => rw [hr'] at hd; cases hd
@@ -248,7 +245,7 @@ theorem decode_struct_obj (env : Env) (fs : List Field) (j : Json) (g : Nat) (v 
   | succ g => cases j <;> simp [decode] at h ⊢
 
 theorem decode_slice_arr (env : Env) (t : GoTy) (j : Json) (g : Nat) (v : GoVal)
-    (hn : ∀ n, t ≠ .named n) (hb : t ≠ .int .u8) (hi : t ≠ .iface)
+    (hb : t ≠ .int .u8) (hi : t ≠ .iface)
     (h : decode .json env g (.slice t) j = .ok v) : j = .null ∨ ∃ xs, j = .arr xs := by
   cases g with
   | zero => simp [decode] at h
@@ -256,10 +253,10 @@ theorem decode_slice_arr (env : Env) (t : GoTy) (j : Json) (g : Nat) (v : GoVal)
     cases j with
     | null => exact Or.inl rfl
     | arr xs => exact Or.inr ⟨xs, rfl⟩
-    | bool b => exfalso; cases t <;> first | (exact hn _ rfl) | (exact hi rfl) | (rename_i k; cases k <;> first | exact hb rfl | simp [decode] at h) | simp [decode] at h
-    | num q => exfalso; cases t <;> first | (exact hn _ rfl) | (exact hi rfl) | (rename_i k; cases k <;> first | exact hb rfl | simp [decode] at h) | simp [decode] at h
-    | str q => exfalso; cases t <;> first | (exact hn _ rfl) | (exact hi rfl) | (rename_i k; cases k <;> first | exact hb rfl | simp [decode] at h) | simp [decode] at h
-    | obj q => exfalso; cases t <;> first | (exact hn _ rfl) | (exact hi rfl) | (rename_i k; cases k <;> first | exact hb rfl | simp [decode] at h) | simp [decode] at h
+    | bool b => exfalso; cases t <;> first | (exact hi rfl) | (rename_i k; cases k <;> first | exact hb rfl | simp [decode] at h) | simp [decode] at h
+    | num q => exfalso; cases t <;> first | (exact hi rfl) | (rename_i k; cases k <;> first | exact hb rfl | simp [decode] at h) | simp [decode] at h
+    | str q => exfalso; cases t <;> first | (exact hi rfl) | (rename_i k; cases k <;> first | exact hb rfl | simp [decode] at h) | simp [decode] at h
+    | obj q => exfalso; cases t <;> first | (exact hi rfl) | (rename_i k; cases k <;> first | exact hb rfl | simp [decode] at h) | simp [decode] at h
 
 /-- the method of a plain declaration decodes its shadow value -/
 theorem runMethod_plain_decode (env : Env) (d : Decl) (vs : List Validator) (m : Bool) (j : Json) (f : Nat) (v : GoVal)
@@ -493,15 +490,14 @@ theorem certSound (env : Env) (defs : Spec.Defs) :
       | none => simp [hitems] at hit
       | some it =>
         simp only [hitems, Bool.and_eq_true] at hit hcovIt
-        have hn : ∀ n, t ≠ .named n := by intro n e; subst e; simp at htn
-        have hb : t ≠ .int .u8 := by intro e; subst e; simp at htn
+        have hb : t ≠ .int .u8 := by intro e; subst e; simp [elemOK] at htn
         have hi : t ≠ .iface := by
           intro e; subst e
           rw [certAll_iface] at hit; cases hit
         obtain ⟨g, v, hd⟩ := hacc
-        rcases decode_slice_arr env t j g v hn hb hi hd with e | ⟨xs, rfl⟩
+        rcases decode_slice_arr env t j g v hb hi hd with e | ⟨xs, rfl⟩
         · exact absurd e hjnn
-        · have helems := (acc_slice_iff env t xs hn hb).mp ⟨g, v, hd⟩
+        · have helems := (acc_slice_iff env t xs htn).mp ⟨g, v, hd⟩
           have hvalid : ∀ x ∈ xs, ∃ F, Spec.valid F defs it x = true := by
             intro x hx
             obtain ⟨F, hF⟩ := ih t it hit hcovIt.2 x (helems x hx) (hclean.ofElem x hx)
@@ -766,7 +762,7 @@ theorem certSound (env : Env) (defs : Spec.Defs) :
                       | slice t' =>
                         rw [hfty] at hd hsl
                         simp only [sliceElemOK] at hsl
-                        have := arr_check_eq env t' mn mx xs g v (by intro n e; subst e; simp at hsl) (by intro e; subst e; simp at hsl) hd
+                        have := arr_check_eq env t' mn mx xs g v hsl hd
                         rw [this, hmn, hmx] at hchk
                         exact hchk
                       | _ => rw [hfty] at hsl; simp [sliceElemOK] at hsl
@@ -843,5 +839,23 @@ def exSchemaR : Schema := .mk { types := ["object"], required := ["owner"], prop
 
 example : certAll exEnvR exDefsR 6 (.named "Root") exSchemaR = true ∧
     certCov exEnvR exDefsR 6 (.named "Root") exSchemaR = true ∧ topFree exSchemaR = true := by decide +kernel
+
+/-- … and arrays of objects -/
+def exEnvO : Env := [
+  { name := "Root", ty := .strct [
+      { name := "People", jsonName := "people", ty := .slice (.named "Person"), tags := "", jsonKey := "people", yamlKey := "people", omitEmpty := true }],
+    body := .plain [.array "People" 1 0 5] true },
+  { name := "Person", ty := .strct [
+      { name := "Name", jsonName := "name", ty := .string, tags := "", jsonKey := "name", yamlKey := "name", omitEmpty := false }],
+    body := .plain [.required "name"] true }]
+
+def exSchemaO : Schema := .mk { types := ["object"], props := [
+  ("people", .mk { types := ["array"], maxItems := 5, items := some (.mk { ref := "#/definitions/Person" }) })] }
+
+def exDefsO : Spec.Defs := [("Person", .mk { types := ["object"], required := ["name"], props := [
+  ("name", .mk { types := ["string"] })] })]
+
+example : certAll exEnvO exDefsO 6 (.named "Root") exSchemaO = true ∧
+    certCov exEnvO exDefsO 6 (.named "Root") exSchemaO = true ∧ topFree exSchemaO = true := by decide +kernel
 
 end GJS.Props.C02
